@@ -412,6 +412,10 @@ def run(index: RepoIndex, rep) -> None:
     geo = Geometry(index)
     pipe = Pipeline(index, geo)
     c05.masking(index, rep, 'C06.R6', pipe)
+    rep.rule('C06.R7', 'each occluding observation function is from_visibility with its own '
+             'visibility function and nothing else (C05.R5): what is shown is decided by the '
+             'flood fill / the rays only', floor=4)
+    c05.wrappers(index, rep, 'C06.R7')
 
 
 def _conj(f) -> List:
